@@ -278,3 +278,28 @@ def failall_run(kf: int, ka: int) -> Tuple[bool, bool, List[bool], bool, bool, b
     with NoTracing():
         kitpaths.cleanup(root)
     return out + (man.get("all_valid"),) + again
+
+
+# ------------------------------------------------------------------ O5 an error and a stop() on the same line, policy with 'fail'
+ERRSTOP_TPL = '$SYM[*][ push("s", line_number()) @ke.nocontrib == line_number() -> mod(1, 0) stop(@ke == line_number()) push("t", line_number()) ]'
+
+
+@ob(
+    "C04",
+    "O5-error-then-stop-same-line",
+    pre=["{LO} <= ke <= {HI}"],
+    post="_ == ((not (f and 0 <= ke < 5)), [i for i in range(5) if ke < 0 or ke >= 5 or i <= ke])",
+    bound="5 stub records; on symbolic line ke a component raises and a later component of the same line calls stop(), one more "
+    "component follows; policy collect + symbolic 'fail': the verdict is False iff 'fail' is in the policy and the error happened",
+    outside="other orders of the erroring and the stopping component",
+    encodes=ENC + ["csvpath/matching/matcher.py:Matcher.matches (stopped branch) / clear_errors", "csvpath/util/error.py:ErrorHandler._handle_if"],
+    tiers={"quick": {"timeout": 600, "K": {"LO": -1, "HI": 5}}},
+)
+def error_then_stop(ke: int, f: bool) -> Tuple[bool, List[int]]:
+    policy = ["collect"]
+    if f:
+        policy.append("fail")
+    p, pr = fresh(ERRSTOP_TPL, RECS, policy=policy)
+    p.variables["ke"] = ke
+    p.fast_forward()
+    return (p.is_valid, list(p.variables.get("s", [])))
